@@ -387,9 +387,6 @@ func desc(e *yang.Entry) string {
 	return fmt.Sprintf("%s %q at %s", kindOf(e), e.Name, e.Path())
 }
 
-func gen(body []byte) *core.Verdict {
-	return &core.Verdict{OK: true, Out: true}
-}
 
 // ---- checks -------------------------------------------------------------------------
 
@@ -408,6 +405,24 @@ func init() {
 		r.Assumptions = []string{"implicit-case namespace, a wrong prefix on a non-first step and uses-augment are outside the claim", "the real map iteration order is whatever the Go runtime picks in the run (orders are exhaustive in the model only)"}
 		cfgs := []string{"aug_quick"}
 		designRun(r, "C07", cfgs, nil)
+		directionB(r, "C07", false)
+	}
+}
+
+// directionB: random programs judged by SchemaProgTrace (and their heaps by SchemaTrace when heap is set).
+func directionB(r *core.Run, prop string, heap bool) {
+	n := 40
+	if r.Tier == "thorough" {
+		n = 600
+	}
+	col := core.NewCollector()
+	core.SubmitCollect(r, "schema", 'B', n, col)
+	if col.Len() == 0 {
+		return
+	}
+	r.ValidateTrace("schema", col, core.TLCOpts{Module: "SchemaProgTrace", Cfg: "SchemaProgTrace_" + prop + ".cfg", Timeout: 0, HeapGB: 8})
+	if heap {
+		r.ValidateTrace("schema", col, core.TLCOpts{Module: "SchemaTrace", Cfg: "SchemaTrace.cfg", Timeout: 0, HeapGB: 8})
 	}
 }
 
@@ -426,18 +441,21 @@ func init() {
 		col := core.NewCollector()
 		designRun(r, "C04", tierCfgs(r, []string{"aug_quick", "uses_quick"}, []string{"aug_sub", "aug_two", "cfg", "uses"}), col)
 		r.ValidateTrace("schema", col, core.TLCOpts{Module: "SchemaTrace", Cfg: "SchemaTrace.cfg", Timeout: 0, HeapGB: 8})
+		directionB(r, "C04", true)
 	}
 	core.Checks["C12"] = func(r *core.Run) {
 		r.Rule = "A: the config space (config unset/true/false at three depths; the second and third level placed by plain nesting, uses, a shorthand choice member or case, or an augment from another module; the whole tree in the module or in a submodule; the same under rpc input, rpc output and notification without config statements) and the augment space; for every node of every clean outcome ReadOnly(), Namespace() and InstantiatingModule() are compared with the specification's reading of who wrote which statement. Non-trivial = every case."
 		r.Exhaustive = true
 		r.Assumptions = []string{"config statements inside rpc / action / notification are outside the claim", "the namespace of an implicit case itself is not compared"}
 		designRun(r, "C12", tierCfgs(r, []string{"cfg", "aug_quick"}, []string{"aug_sub", "uses"}), nil)
+		directionB(r, "C12", false)
 	}
 	core.Checks["C06"] = func(r *core.Run) {
 		r.Rule = "A: the uses space: a grouping g1 of four shapes (container with default leaf and nested uses; list with min-elements and a leaf-list with defaults; config-false container with choice/case and shorthand member; container with an inner grouping shadowing the outer g2) defined in the imported module, in its submodule or in the using module, used at two sites (container, list, rpc input, notification, through another grouping, inside a case), names inside it (g2) shadowed by a same-named grouping of the user; with one later mutation of the first instance (augment, deviate not-supported, deviate add config) from a third module; every path, kind, attribute and Namespace() of every instance compared with the inlined-copy semantics of Schema.tla. Non-trivial = every case."
 		r.Exhaustive = true
 		r.Assumptions = []string{"refine and uses-augment are outside the claim", "a submodule referring to its owner's groupings is not generated (RFC 6020 and 7950 differ)"}
 		designRun(r, "C06", tierCfgs(r, []string{"uses_quick"}, []string{"uses"}), nil)
+		directionB(r, "C06", false)
 	}
 	core.Checks["C17"] = func(r *core.Run) {
 		r.Rule = "A: on every clean outcome of the augment space (and the uses / config spaces in the thorough tier): for every node of every module tree, Find of its absolute prefixed path from the module's own root, from the root of every importing module (with that module's prefix) and from a deep node of each, compared by pointer identity; the relative ../ path between every pair of nodes up to depth 3; and every absolute path with an absent step appended or substituted must return nothing. Non-trivial = every case."
